@@ -320,9 +320,17 @@ def checks(work, jobs, wrk):
             for c in order:
                 t0 = time.time()
                 try:
-                    r = subprocess.run(["/verif/check", c, "quick"], env=env, capture_output=True, text=True, timeout=2400)
-                    bad = r.returncode != 0
-                    line = next((l for l in r.stdout.splitlines() if l.startswith("VIOLATION")), "")
+                    pr = subprocess.Popen(["/verif/check", c, "quick"], env=env, stdout=subprocess.PIPE, stderr=subprocess.DEVNULL, text=True,
+                                          start_new_session=True)
+                    try:
+                        out, _ = pr.communicate(timeout=900)
+                    except subprocess.TimeoutExpired:
+                        import signal
+                        os.killpg(pr.pid, signal.SIGKILL)
+                        pr.wait()
+                        raise
+                    bad = pr.returncode != 0
+                    line = next((l for l in out.splitlines() if l.startswith("VIOLATION")), "")
                 except subprocess.TimeoutExpired:
                     bad, line = True, "TIMEOUT"
                 ran.append((c, round(time.time() - t0, 1)))
